@@ -27,7 +27,7 @@ BOUND = (
     'x request paths over an 18-symbol segment alphabet {.., ., empty, %2e%2e, absolute path of an outside '
     'file, names of inside files/dirs, of outside files/dirs, of the roots, of 3 symlinks leaving the roots '
     'and 1 staying inside}, each run with (leading slashes, isdep, request) variants; quick: all paths of 1-2 '
-    'segments x 4 variants (+ StaticContent.render_GET), all of 3 segments x 1 rotating variant, 4000 seeded '
+    'segments x 4 variants (+ StaticContent.render_GET), all of 3 segments x 1 rotating variant, 3000 seeded '
     'paths of 4-5 segments; thorough (the space reported as exhaustive): all paths of 1-4 segments x 4 '
     'variants and all paths of 5 segments over the 12-symbol sub-alphabet x 1 rotating variant, plus 100000 '
     'seeded 5-segment paths over the full alphabet; access: every registered endpoint x '
@@ -225,7 +225,7 @@ REDUCED = [x for x in ALPHABET if x not in ('a.txt', 'o.txt', 'pages', 'site', '
 def _units(tier: str, rng: random.Random) -> list:
     '''work units: ('prod', n, prefix, alphabet, variants) or ('list', tuples, variants)'''
     if tier == 'quick':
-        sampled = [tuple(rng.choice(ALPHABET) for _ in range(rng.choice([4, 5]))) for _ in range(4000)]
+        sampled = [tuple(rng.choice(ALPHABET) for _ in range(rng.choice([4, 5]))) for _ in range(3000)]
         return [[('prod', 1, (), 'full', 'all'), ('prod', 2, (), 'full', 'all'), ('prod', 3, (), 'full', 'one'),
                  ('list', sampled, 'one')]]
     units = [[('prod', 1, (), 'full', 'all'), ('prod', 2, (), 'full', 'all'), ('prod', 3, (), 'full', 'all')]]
